@@ -167,6 +167,9 @@ def build(rng, family):
                 M.AND(other, M.OR(M.AND(pos, neg), other2)),
                 M.AND(other, M.OR(M.AND(pos, neg), M.AND(neg, other2, pos))),
             ]))
+        # a deck whose every cell is empty has no expected output at all:
+        # keep one plain cell
+        exprs.append(lit(rng, sids))
     elif family == 'multi':
         msids = [s.id for s in surfs if s.kind in
                  ('k/z', 'kx', 'k/y', 'rpp', 'rcc', 'box', 'sph', 'tz')]
